@@ -40,7 +40,7 @@ type S struct {
 	Why  string
 }
 
-func skip() *S             { return &S{K: "Skip"} }
+func skip() *S              { return &S{K: "Skip"} }
 func unknown(why string) *S { return &S{K: "Unknown", Why: why} }
 func seq(a, b *S) *S {
 	if a.K == "Skip" {
@@ -117,9 +117,9 @@ type pkgInfo struct {
 	fset     *token.FileSet
 	funcs    map[string]*ast.FuncDecl
 	methods  map[string]map[string]*ast.FuncDecl // recv type -> name -> decl
-	structs  map[string]map[string]string         // type -> field -> type name
+	structs  map[string]map[string]string        // type -> field -> type name
 	closures map[string]map[string]*ast.FuncLit  // variant type -> field -> literal
-	ctorOf   map[string]*ast.FuncDecl             // variant type -> constructor
+	ctorOf   map[string]*ast.FuncDecl            // variant type -> constructor
 	imports  map[string]bool
 }
 
@@ -460,11 +460,11 @@ func isName(e ast.Expr, name string) bool {
 
 // resolve finds the body a call expression runs, if it is inside the package.
 type callee struct {
-	body   *ast.BlockStmt
-	ftype  *ast.FuncType
-	recv   *ast.FieldList
-	recvX  ast.Expr
-	name   string
+	body  *ast.BlockStmt
+	ftype *ast.FuncType
+	recv  *ast.FieldList
+	recvX ast.Expr
+	name  string
 }
 
 func (g *gen) resolve(call *ast.CallExpr, c *ctx) *callee {
